@@ -12,8 +12,8 @@ variable (env : Env) (I : Table) (enc : Enc) (dec : Dec) (conf : Nat → Val →
 /-- the alternative that is set: its encoding starts with a tag only it matches, and
     `decodeAlts` standing at this alternative decodes it -/
 theorem alt_here (τ : Nat) (a : Field)
-    (hgood : ∀ j, j < τ → (look I j).sup = true → Good I enc dec conf j)
-    (hsane : altSane env τ a = true) (hsup : altSup env I a = true)
+    (hgood : ∀ j, j < τ → Good I enc dec conf j)
+    (hsane : altSane env τ a = true)
     (v : Val) (hc : conformsRef env conf a.ref v = true) :
     ∃ t r, encodeAlt env enc a v = .ok (t :: r) ∧ t.cls ≠ .closing ∧
       (∃ p ∈ fieldFirst env I a, p.matches t = true) ∧
@@ -21,7 +21,6 @@ theorem alt_here (τ : Nat) (a : Field)
   obtain ⟨ref, ctx, opt⟩ := a
   simp only at hc
   unfold altSane at hsane
-  unfold altSup at hsup
   cases hk : kindOf env ref with
   | prim a0 =>
     have hr : ref = .prim a0 := by
@@ -53,13 +52,13 @@ theorem alt_here (τ : Nat) (a : Field)
   | anyAtomic => rw [hk] at hsane; simp at hsane
   | bad => rw [hk] at hsane; simp at hsane
   | seqOf j =>
-    rw [hk] at hsane hsup
+    rw [hk] at hsane
     cases ctx with
     | none => simp at hsane
     | some c =>
-      simp only [Bool.and_eq_true, decide_eq_true_eq] at hsane hsup
+      simp only [Bool.and_eq_true, decide_eq_true_eq] at hsane
       have hcj : conf j v = true := by unfold conformsRef at hc; rw [hk] at hc; simpa using hc
-      obtain ⟨ts, he, _, hrt⟩ := hgood j hsane.2 hsup v hcj
+      obtain ⟨ts, he, _, hrt⟩ := hgood j hsane.2 v hcj
       refine ⟨openTag c, ts ++ [closeTag c], ?_, by simp [openTag], ?_, ?_⟩
       · simp [encodeAlt, hk, he, wrap]
       · simp [fieldFirst, hk, Pat.matches, isOpen_openTag]
@@ -68,13 +67,13 @@ theorem alt_here (τ : Nat) (a : Field)
           hrt (closeTag c :: rest) (Safe.closing _ _ (by simp [closeTag]))
         simp [decodeAlts, hk, isOpen_openTag, hdec, expectClose_closeTag]
   | listOf j =>
-    rw [hk] at hsane hsup
+    rw [hk] at hsane
     cases ctx with
     | none => simp at hsane
     | some c =>
-      simp only [Bool.and_eq_true, decide_eq_true_eq] at hsane hsup
+      simp only [Bool.and_eq_true, decide_eq_true_eq] at hsane
       have hcj : conf j v = true := by unfold conformsRef at hc; rw [hk] at hc; simpa using hc
-      obtain ⟨ts, he, _, hrt⟩ := hgood j hsane.2 hsup v hcj
+      obtain ⟨ts, he, _, hrt⟩ := hgood j hsane.2 v hcj
       refine ⟨openTag c, ts ++ [closeTag c], ?_, by simp [openTag], ?_, ?_⟩
       · simp [encodeAlt, hk, he, wrap]
       · simp [fieldFirst, hk, Pat.matches, isOpen_openTag]
@@ -83,13 +82,13 @@ theorem alt_here (τ : Nat) (a : Field)
           hrt (closeTag c :: rest) (Safe.closing _ _ (by simp [closeTag]))
         simp [decodeAlts, hk, isOpen_openTag, hdec, expectClose_closeTag]
   | struct j =>
-    rw [hk] at hsane hsup
+    rw [hk] at hsane
     cases ctx with
     | none => simp at hsane
     | some c =>
-      simp only [Bool.and_eq_true, decide_eq_true_eq] at hsane hsup
+      simp only [Bool.and_eq_true, decide_eq_true_eq] at hsane
       have hcj : conf j v = true := by unfold conformsRef at hc; rw [hk] at hc; simpa using hc
-      obtain ⟨ts, he, _, hrt⟩ := hgood j hsane.2 hsup v hcj
+      obtain ⟨ts, he, _, hrt⟩ := hgood j hsane.2 v hcj
       refine ⟨openTag c, ts ++ [closeTag c], ?_, by simp [openTag], ?_, ?_⟩
       · simp [encodeAlt, hk, he, wrap]
       · simp [fieldFirst, hk, Pat.matches, isOpen_openTag]
@@ -109,29 +108,29 @@ theorem alt_skip (τ : Nat) (b : Field) (hsane : altSane env τ b = true) (t : T
     simp_all [decodeAlts, Pat.matches]
 
 theorem goodAlts (τ : Nat)
-    (hgood : ∀ j, j < τ → (look I j).sup = true → Good I enc dec conf j) :
+    (hgood : ∀ j, j < τ → Good I enc dec conf j) :
     ∀ (alts : List Field) (k i : Nat) (a : Field) (v : Val),
-      alts.all (altSane env τ) = true → alts.all (altSup env I) = true → altsDisj env I alts = true →
+      alts.all (altSane env τ) = true → altsDisj env I alts = true →
       alts[i]? = some a → conformsRef env conf a.ref v = true →
       ∃ t r, encodeAlt env enc a v = .ok (t :: r) ∧ t.cls ≠ .closing ∧
         (∃ p ∈ alts.flatMap (fieldFirst env I), p.matches t = true) ∧
         ∀ rest, decodeAlts env dec t (r ++ rest) k alts = .ok (.choice (k + i) v, rest) := by
   intro alts
   induction alts with
-  | nil => intro k i a v _ _ _ hi; simp at hi
+  | nil => intro k i a v _ _ hi; simp at hi
   | cons b as ih =>
-    intro k i a v hsane hsup hdisj hi hc
-    simp only [List.all_cons, Bool.and_eq_true] at hsane hsup
+    intro k i a v hsane hdisj hi hc
+    simp only [List.all_cons, Bool.and_eq_true] at hsane
     simp only [altsDisj, Bool.and_eq_true] at hdisj
     cases i with
     | zero =>
       simp only [List.getElem?_cons_zero, Option.some.injEq] at hi
       subst hi
-      obtain ⟨t, r, he, hcl, ⟨p, hp, hm⟩, hd⟩ := alt_here env I enc dec conf τ b hgood hsane.1 hsup.1 v hc
+      obtain ⟨t, r, he, hcl, ⟨p, hp, hm⟩, hd⟩ := alt_here env I enc dec conf τ b hgood hsane.1 v hc
       exact ⟨t, r, he, hcl, ⟨p, by simp [hp], hm⟩, fun rest => by simpa using hd k as rest⟩
     | succ i =>
       simp only [List.getElem?_cons_succ] at hi
-      obtain ⟨t, r, he, hcl, ⟨p, hp, hm⟩, hd⟩ := ih (k + 1) i a v hsane.2 hsup.2 hdisj.2 hi hc
+      obtain ⟨t, r, he, hcl, ⟨p, hp, hm⟩, hd⟩ := ih (k + 1) i a v hsane.2 hdisj.2 hi hc
       refine ⟨t, r, he, hcl, ⟨p, by simp only [List.flatMap_cons, List.mem_append]; exact Or.inr hp, hm⟩, ?_⟩
       intro rest
       -- `p` belongs to some later alternative `a'`, disjoint from `b`
@@ -144,6 +143,21 @@ theorem goodAlts (τ : Nat)
       rw [hd rest]
       have : k + 1 + i = k + (i + 1) := by omega
       rw [this]
+
+/-- no alternative matches: `InvalidTag` (fix C03-decode-error-classes) -/
+theorem alts_failfast (τ : Nat) (t : Tag) (rest : List Tag) :
+    ∀ (alts : List Field) (k : Nat), alts.all (altSane env τ) = true →
+      (∀ p ∈ alts.flatMap (fieldFirst env I), p.matches t = false) →
+      decodeAlts env dec t rest k alts = .error .invalidTag := by
+  intro alts
+  induction alts with
+  | nil => intro k _ _; simp [decodeAlts]
+  | cons b as ih =>
+    intro k hsane hn
+    simp only [List.all_cons, Bool.and_eq_true] at hsane
+    rw [alt_skip env I dec τ b hsane.1 t (fun p hp => hn p (by simp [hp]))]
+    exact ih (k + 1) hsane.2 (fun p hp => hn p (by
+      simp only [List.flatMap_cons, List.mem_append]; exact Or.inr hp))
 end
 
 end BacVerif.C03
